@@ -139,7 +139,10 @@ def run(R, tier):
                     R.violation({'clause': 'matrix', 'basis': 'custom'}, {'algebra': spec, 'x': str(x), 'y': str(y)},
                                 f'matrix: (x*y).asmatrix() != x.asmatrix() @ y.asmatrix() in Algebra({desc}) for x={x}, y={y}')
             # accessors: the coefficient of a spelled blade is the coefficient of the same ordered product in the default algebra
-            for nm in rng.sample(list(Ac.canon2bin), min(4, len(Ac.canon2bin))):
+            names = rng.sample(list(Ac.canon2bin), min(4, len(Ac.canon2bin)))
+            # the longest names several times: permutations with more than one cycle only exist from grade 4 on
+            names += [n for n in Ac.canon2bin if len(n) - 1 >= min(4, Ac.d)] * 4
+            for nm in names:
                 digs = list(nm[1:]); rng.shuffle(digs)
                 sp = 'e' + ''.join(digs)
                 R.case((desc, 'getattr', ka, sp), True)
